@@ -21,6 +21,11 @@ def run(ctx):
     h = ctx.harness(["book-export", "--out", book, "--walk", walk])
     for pn in h["panics"]:
         ctx.violation("panic while walking the book", pn, {"kind": "panic", "panic": pn})
+    for m in h["mismatches"]:
+        if m.get("prop") == "C17":
+            ctx.violation(m.get("kind", "book"), m, {"kind": "harness", "args": ["book-export", "--out", book, "--walk", walk], "mismatch": {k: v for k, v in m.items() if k != "input_line"}})
+        else:
+            ctx.other(m.get("prop", "?"))
     if h["summary"] is None:
         ctx.cov["samples"].append("book walk aborted")
         return
